@@ -648,6 +648,28 @@ theorem windowTs_spec {α : Type} (c : Cfg) (hp : 0 < c.period) (s : State α) (
       · have : (List.range len)[i]? = none := List.getElem?_eq_none (by simp; omega)
         simp [hi, this]
 
+/-- `window(start, end)` never raises, wherever the two datetimes lie relative to the stored span: the clamped bounds
+handed to `to_internal_index` are inside `[oldest bound, newest + period]` whenever the span is not empty. -/
+theorem windowTs_never_raises {α : Type} (c : Cfg) (hp : 0 < c.period) (s : State α) (hI : Inv s)
+    (start end_ : Int) : windowTsRaises c s start end_ = false := by
+  rcases covered_cases s hI with ⟨_, h2, h3, h4, _⟩ | ⟨n, k, hn, _, h2, h3, h4, h5, h6, _⟩
+  · unfold windowTsRaises; simp [h2, h4]
+  · have hcc : ¬ (countCovered s = 0) := by omega
+    unfold windowTsRaises
+    simp only [hcc, if_false, h2, h3, hn, winClampStart_eq, winClampEnd_eq, winEmpty_iff, tiiOutside_iff, oldestOf_eq]
+    have e1 : slotTime c n + c.period = slotTime c (n + 1) := (slotTime_succ c n).symm
+    simp only [e1, normSlot_max c hp, normSlot_min c hp]
+    generalize hA : max (normSlot c start) k = A
+    generalize hB : min (normSlot c end_) (n + 1) = B
+    by_cases hemp : slotTime c A ≥ slotTime c B
+    · simp only [hemp, if_true]
+    · simp only [hemp, if_false]
+      have hAB : A < B := by
+        have := (slotTime_le_iff c hp B A); omega
+      have r1 : ¬ (n + 1 < A ∨ A < n - ((s.cap : Int) - 1)) := by omega
+      have r2 : ¬ (n + 1 < B ∨ B < n - ((s.cap : Int) - 1)) := by omega
+      simp only [r1, r2, decide_false, Bool.or_false]
+
 theorem sliceBound_range (x : Option Int) (dflt n : Int) (hd : 0 ≤ dflt ∧ dflt ≤ n) (hn : 0 ≤ n) :
     0 ≤ sliceBound x dflt n ∧ sliceBound x dflt n ≤ n := by
   unfold sliceBound
